@@ -85,7 +85,7 @@ func buildWithUpstream(f int, x *ref.T, extra []*ref.T, extraTracked []bool) (p 
 
 /* ---------------- C13 ---------------- */
 
-var c13Preds = []float64{0, 1e-13, 0.2, 0.5, 0.9, 1 - 1e-13, 1}
+var c13Preds = []float64{0, 1e-13, 2e-12, 1e-9, 1e-6, 0.2, 0.5, 0.9, 1 - 1e-9, 1 - 2e-12, 1 - 1e-13, 1}
 var c13Targets = []float64{0, 0.3, 1}
 
 func c13Run(kind string, p, t *ref.T, form int, tTracked bool) core.Verdict {
@@ -95,7 +95,10 @@ func c13Run(kind string, p, t *ref.T, form int, tTracked bool) core.Verdict {
 	}
 	root := prog.NTensors()
 	prog.Nodes = append(prog.Nodes, ref.Node{Op: ref.Op{K: kind}, In: []int{pred, ex[0]}})
-	o := gradOpts{}
+	// the loss and the value-preserving upstream forms are element-wise in the
+	// prediction: judge every gradient element relative to its own magnitude
+	// (1/p reaches 5e11 next to elements of magnitude 1)
+	o := gradOpts{elementwise: true}
 	if tTracked && !ref.TargetDifferentiable(ref.Op{K: kind}, []*ref.T{p, t}) {
 		o.noValue = map[int]bool{ex[0]: true}
 	}
